@@ -719,6 +719,13 @@ func distExactHandler(raw json.RawMessage) map[string]any {
 				func() float64 { return xy.DistanceFromLineToLine(p, q, a, b) },
 				func() float64 { return xy.DistanceFromPointToLine(p, a, b) },
 				func() float64 { return xy.DistanceFromPointToLine(a, p, q) },
+				func() float64 { return xy.PerpendicularDistanceFromPointToLine(p, a, b) },
+				func() float64 {
+					return xy.DistanceFromPointToLineString(geom.XY, p, []float64{a[0], a[1], b[0], b[1], q[0], q[1]})
+				},
+				func() float64 {
+					return xy.DistanceFromPointToLineString(geom.XY, p, []float64{q[0], q[1], b[0], b[1], a[0], a[1]})
+				},
 			)
 		} else {
 			dim = 3
@@ -727,6 +734,8 @@ func distExactHandler(raw json.RawMessage) map[string]any {
 				func() float64 { return xyz.DistanceLineToLine(p, q, a, b) },
 				func() float64 { return xyz.DistancePointToLine(p, a, b) },
 				func() float64 { return xyz.DistancePointToLine(a, p, q) },
+				func() float64 { return xyz.Distance(a, p) },
+				func() float64 { return xyz.Distance(q, b) },
 			)
 		}
 		rows = append(rows, map[string]any{"r": r, "x": [][]string{exactStrs(a[:dim]), exactStrs(b[:dim]), exactStrs(p[:dim]), exactStrs(q[:dim])}})
